@@ -7,6 +7,7 @@ package main
 // sequence read.
 
 import (
+	"bytes"
 	"encoding/binary"
 	"errors"
 	"fmt"
@@ -755,6 +756,18 @@ func r2kinds() []r2kind {
 	}
 }
 
+// r2snapshot freezes what a (possibly reused) receiver object holds right after a read: a fresh object of the same
+// kind decoded from the re-encoding.
+func r2snapshot(k r2kind, o rhp2.ProtocolObject) rhp2.ProtocolObject {
+	var buf bytes.Buffer
+	e := types.NewEncoder(&buf)
+	o.EncodeTo(e)
+	e.Flush()
+	c := k.fresh()
+	c.DecodeFrom(types.NewBufDecoder(buf.Bytes()))
+	return c
+}
+
 // rawRead reads an RPCReadResponse through the streaming path:
 // RawResponse -> decode from the unauthenticated stream -> VerifyTag.
 func rawRead(t *rhp2.Transport, maxLen uint64) (*rhp2.RPCReadResponse, error) {
@@ -956,6 +969,7 @@ func runRHP2Session(b *harness.B, g G, tcp bool, fc fragClass, nRounds, maxPaylo
 	wg.Add(2)
 	go func() { // host
 		defer wg.Done()
+		hostPool := map[int]rhp2.ProtocolObject{}
 		cg := subG(contentSeed, 1)
 		for j, rd := range sched {
 			id, err := ht.ReadID()
@@ -965,12 +979,22 @@ func runRHP2Session(b *harness.B, g G, tcp bool, fc fragClass, nRounds, maxPaylo
 			}
 			tr.r("id", &id)
 			if rd.hasReq {
-				o := kinds[rd.reqKind].fresh()
+				// every other round the receiver reuses the object it read the previous message of that kind into
+				o, reused := kinds[rd.reqKind].fresh(), false
+				if j%2 == 1 {
+					if p, ok := hostPool[rd.reqKind]; ok {
+						o, reused = p, true
+					}
+				}
+				hostPool[rd.reqKind] = o
 				if err := ht.ReadRequest(o, limit); err != nil {
 					tr.fail("host ReadRequest %T (round %d): %v", o, j, err)
 					return
 				}
-				tr.r("r2h", o)
+				tr.r("r2h", r2snapshot(kinds[rd.reqKind], o))
+				if reused {
+					b.Count("rhp2_messages_read_into_a_reused_object", 1)
+				}
 			}
 			switch {
 			case rd.raw >= 0:
@@ -1007,6 +1031,7 @@ func runRHP2Session(b *harness.B, g G, tcp bool, fc fragClass, nRounds, maxPaylo
 	}()
 	go func() { // renter
 		defer wg.Done()
+		renterPool := map[int]rhp2.ProtocolObject{}
 		cg := subG(contentSeed, 2)
 		for j, rd := range sched {
 			id := cg.spec()
@@ -1038,7 +1063,13 @@ func runRHP2Session(b *harness.B, g G, tcp bool, fc fragClass, nRounds, maxPaylo
 				b.Distinct("raw", link, fc.name, sizeClass(rd.raw), (89+rd.raw)%16, 89+rd.raw+36 <= 4096)
 				continue
 			}
-			o := kinds[rd.respKind].fresh()
+			o, reused := kinds[rd.respKind].fresh(), false
+			if j%2 == 1 {
+				if p, ok := renterPool[rd.respKind]; ok {
+					o, reused = p, true
+				}
+			}
+			renterPool[rd.respKind] = o
 			err := rt.ReadResponse(o, limit)
 			var re *rhp2.RPCError
 			if errors.As(err, &re) {
@@ -1057,7 +1088,10 @@ func runRHP2Session(b *harness.B, g G, tcp bool, fc fragClass, nRounds, maxPaylo
 				tr.fail("renter: an error response was read as a successful %T", o)
 				return
 			}
-			tr.r("h2r", o)
+			tr.r("h2r", r2snapshot(kinds[rd.respKind], o))
+			if reused {
+				b.Count("rhp2_messages_read_into_a_reused_object", 1)
+			}
 		}
 	}()
 	done := make(chan struct{})
